@@ -129,6 +129,10 @@ impl Amount {
         symrt::cover("narrowed_within_range_sampled");
         T::from_u256(self.norm().concretize_by_model() & (T::limit_u256() - ruint::aliases::U256::from(1u8)))
     }
+    /// ruint's div_rem: quotient and remainder of one division (same division lemma as `/` and `%`)
+    pub fn div_rem(self, rhs: Amount) -> (Amount, Amount) {
+        (self / rhs, self % rhs)
+    }
     pub fn as_le_bytes(&self) -> Vec<u8> {
         let v: [u8; 32] = self.norm().model_value().to_le_bytes();
         v.to_vec()
